@@ -16,11 +16,13 @@ package c20
 // far as the txn are parked there and released in the generated order.
 
 import (
+	"bytes"
 	"context"
 	"fmt"
 	"os"
 	"path"
 	"path/filepath"
+	"runtime"
 	"sort"
 	"strconv"
 	"strings"
@@ -69,6 +71,17 @@ type BootCase struct {
 	Late    []Req  `json:"late,omitempty"`    // fresh requests sent one by one afterwards
 	Repeat  bool   `json:"repeat,omitempty"`  // re-send every earlier request afterwards
 	Reelect bool   `json:"reelect,omitempty"` // the leader steps down and is re-elected, then requests are repeated
+	Fault   *Fault `json:"fault,omitempty"`   // first of all: one valid request with an etcd fault injected into one of its etcd requests
+}
+
+// Fault: a valid Bootstrap request is first run fault-free on the fresh server to count the etcd
+// requests K it issues on its goroutine (the guarded txn, every later storage read and write of
+// RaftCluster.Start); the server is reset; then a request of the same shape runs with a fault on
+// its etcd request number 1 + N mod K.
+type Fault struct {
+	N      int    `json:"n"`
+	Kind   string `json:"kind"` // before (not sent, error) | lostack (executed, error returned)
+	Labels int    `json:"labels,omitempty"`
 }
 
 func genReq(t *rapid.T, pOK int) Req {
@@ -107,6 +120,11 @@ func genBoot(t *rapid.T) BootCase {
 	}
 	c.Repeat = rapid.IntRange(0, 2).Draw(t, "repeat") != 0
 	c.Reelect = rapid.IntRange(0, 5).Draw(t, "reelect") == 0
+	if rapid.IntRange(0, 9).Draw(t, "withFault") >= 6 {
+		c.Fault = &Fault{N: rapid.IntRange(0, 63).Draw(t, "faultN"),
+			Kind:   rapid.SampledFrom([]string{"before", "lostack"}).Draw(t, "faultKind"),
+			Labels: rapid.IntRange(0, 2).Draw(t, "faultLabels")}
+	}
 	return c
 }
 
@@ -171,14 +189,97 @@ func mkInst(c BootCase, r Req, idx int, cid uint64) *inst {
 // ---------------------------------------------------------------- the intercepting KV
 
 type txnInfo struct {
+	first     string // key of the first op (description)
 	puts      map[string]string
 	succeeded bool
 	err       error
 }
 
 type txnHooks struct {
-	before func(*txnInfo)
+	before func(*txnInfo) int // 0 proceed, 1 fail before sending, 2 execute but lose the answer
 	after  func(*txnInfo)
+}
+
+var noRevCheck = os.Getenv("VERIF_C20_NO_REVCHECK") != ""
+
+var errInjectedEtcd = fmt.Errorf("verif: injected etcd failure")
+
+// faultPlan counts the etcd requests issued by ONE goroutine (the one running the Bootstrap
+// call): every txn through the client's KV (the guarded bootstrap txn and every storage write)
+// and every storage read (Load / LoadRange of the server's core.Storage). Request number
+// failAt (1-based, 0 = none) is failed.
+type faultPlan struct {
+	mu     sync.Mutex
+	goid   uint64
+	failAt int
+	kind   string
+	count  int
+	hit    string
+	log    []string
+}
+
+func curGoid() uint64 {
+	b := make([]byte, 64)
+	b = b[:runtime.Stack(b, false)]
+	b = bytes.TrimPrefix(b, []byte("goroutine "))
+	var id uint64
+	for _, c := range b {
+		if c < '0' || c > '9' {
+			break
+		}
+		id = id*10 + uint64(c-'0')
+	}
+	return id
+}
+
+// next is called for every etcd request; it returns 0 proceed, 1 fail-before, 2 lost-ack.
+func (p *faultPlan) next(desc string) int {
+	if p == nil || curGoid() != p.goid {
+		return 0
+	}
+	p.mu.Lock()
+	defer p.mu.Unlock()
+	p.count++
+	p.log = append(p.log, desc)
+	if p.count != p.failAt {
+		return 0
+	}
+	p.hit = desc
+	if p.kind == "lostack" {
+		return 2
+	}
+	return 1
+}
+
+// readFaultKV is the kv.Base of the per-case storage: reads pass the fault plan (writes are
+// txns through the client's KV and are counted there).
+type readFaultKV struct {
+	kv.Base
+	plan *atomic.Value // *faultPlan
+}
+
+func (k *readFaultKV) cur() *faultPlan { p, _ := k.plan.Load().(*faultPlan); return p }
+
+func (k *readFaultKV) Load(key string) (string, error) {
+	switch k.cur().next("load " + key) {
+	case 1:
+		return "", errInjectedEtcd
+	case 2:
+		k.Base.Load(key)
+		return "", errInjectedEtcd
+	}
+	return k.Base.Load(key)
+}
+
+func (k *readFaultKV) LoadRange(key, endKey string, limit int) ([]string, []string, error) {
+	switch k.cur().next("range " + key) {
+	case 1:
+		return nil, nil, errInjectedEtcd
+	case 2:
+		k.Base.LoadRange(key, endKey, limit)
+		return nil, nil, errInjectedEtcd
+	}
+	return k.Base.LoadRange(key, endKey, limit)
 }
 
 // gateKV replaces the public KV field of the server's etcd client. Only Txn is intercepted.
@@ -205,6 +306,9 @@ func (t *gateTxn) Then(ops ...clientv3.Op) clientv3.Txn {
 		if op.IsPut() {
 			t.info.puts[string(op.KeyBytes())] = string(op.ValueBytes())
 		}
+		if t.info.first == "" {
+			t.info.first = string(op.KeyBytes())
+		}
 	}
 	t.Txn = t.Txn.Then(ops...)
 	return t
@@ -212,14 +316,21 @@ func (t *gateTxn) Then(ops ...clientv3.Op) clientv3.Txn {
 func (t *gateTxn) Else(ops ...clientv3.Op) clientv3.Txn { t.Txn = t.Txn.Else(ops...); return t }
 func (t *gateTxn) Commit() (*clientv3.TxnResponse, error) {
 	h, _ := t.g.hooks.Load().(*txnHooks)
+	action := 0
 	if h != nil && h.before != nil {
-		h.before(t.info)
+		action = h.before(t.info)
+	}
+	if action == 1 {
+		return nil, errInjectedEtcd
 	}
 	resp, err := t.Txn.Commit()
 	t.info.err = err
 	t.info.succeeded = err == nil && resp.Succeeded
 	if h != nil && h.after != nil {
 		h.after(t.info)
+	}
+	if action == 2 {
+		return nil, errInjectedEtcd
 	}
 	return resp, err
 }
@@ -237,6 +348,7 @@ type liveFix struct {
 	curDir  string
 	cases   int
 	broken  bool
+	plan    atomic.Value // *faultPlan: armed while a faulted Bootstrap call runs
 	// used by the "refusal" property (refusal_test.go)
 	conn     *grpc.ClientConn
 	own      *clientv3.Client // the harness' own etcd client (raw dumps of the persisted cluster records)
@@ -349,6 +461,12 @@ func startLive() (f *liveFix, err error) {
 	}
 	f.orig = f.svr.GetStorage()
 	f.raw = clientv3.NewKV(f.svr.GetClient())
+	own, err := clientv3.New(clientv3.Config{Endpoints: []string{f.svr.GetAddr()}, DialTimeout: 15 * time.Second})
+	if err != nil {
+		return nil, err
+	}
+	f.own = own
+	f.plan.Store((*faultPlan)(nil))
 	return f, nil
 }
 
@@ -431,7 +549,7 @@ func (f *liveFix) snapshot() (map[string]string, map[string]string, error) {
 		k   string
 		opt []clientv3.OpOption
 	}{{root, nil}, {root + "/", []clientv3.OpOption{clientv3.WithPrefix()}}} {
-		resp, err := f.raw.Get(ctx, q.k, q.opt...)
+		resp, err := f.own.Get(ctx, q.k, q.opt...)
 		if err != nil {
 			return nil, nil, err
 		}
@@ -471,7 +589,8 @@ func (f *liveFix) reset() error {
 	if err != nil {
 		return err
 	}
-	st := core.NewStorage(kv.NewEtcdKVBase(svr.GetClient(), svr.GetServerRootPath()), core.WithRegionStorage(rs))
+	f.plan.Store((*faultPlan)(nil))
+	st := core.NewStorage(&readFaultKV{Base: kv.NewEtcdKVBase(svr.GetClient(), svr.GetServerRootPath()), plan: &f.plan}, core.WithRegionStorage(rs))
 	if svr.GetPersistOptions().IsUseRegionStorage() {
 		st.SwitchToRegionStorage()
 	}
@@ -567,6 +686,13 @@ type bootRun struct {
 	lastRev map[string]string
 	mu      sync.Mutex
 	commits []string // store keys of bootstrap txns that etcd reported as succeeded
+	txnKeys []string // keys put by the bootstrap txn that committed
+	// degraded: the winner's txn committed but its Bootstrap call returned an error (injected
+	// lost ack / a fault in RaftCluster.Start). The call never reached, or did not finish, the
+	// part after the txn, so the region may be missing from the leveldb region storage (the
+	// code's own TODO "figure out a better way to handle bootstrap failed"): region-storage and
+	// served-region checks accept "absent" besides "the winner's".
+	degraded bool
 }
 
 // classify checks what holds for the outcome of a request whenever it is sent: a wrong cluster
@@ -686,6 +812,26 @@ func (b *bootRun) verify(stage string, unchanged bool) error {
 	if len(vals[timeKey]) != 8 {
 		return fmt.Errorf("%s: bootstrap time record has %d bytes", stage, len(vals[timeKey]))
 	}
+	// one bootstrap = one etcd revision: cluster meta, bootstrap time, first store and first region are
+	// created together (create revision == mod revision, the same for all four) — on the unchanged
+	// tree the guarded txn puts exactly these four keys (observed from the txn itself, see txnKeys)
+	for _, k := range []string{b.root, timeKey, storeKey, regionKey} {
+		if noRevCheck {
+			break // development aid: lets the fault oracle be tested on its own against a mutant
+		}
+		if revs[k] != revs[b.root] || revs[k] != fmt.Sprintf("%s/%s", strings.SplitN(revs[k], "/", 2)[0], strings.SplitN(revs[k], "/", 2)[0]) {
+			return fmt.Errorf("%s: the bootstrap records were not written in one revision: meta %s, bootstrap time %s, store %s, region %s (create/mod revision)", stage, revs[b.root], revs[timeKey], revs[storeKey], revs[regionKey])
+		}
+	}
+	b.mu.Lock()
+	txnKeys := append([]string(nil), b.txnKeys...)
+	b.mu.Unlock()
+	if want := []string{b.root, regionKey, storeKey, timeKey}; txnKeys != nil && !noRevCheck {
+		sort.Strings(want)
+		if strings.Join(txnKeys, " ") != strings.Join(want, " ") {
+			return fmt.Errorf("%s: the committed bootstrap txn wrote %v, want exactly meta, bootstrap time, first store, first region %v", stage, txnKeys, want)
+		}
+	}
 	// --- through the server's storage
 	var lm metapb.Cluster
 	if ok, err := st.LoadMeta(&lm); err != nil || !ok || !protoEq(&lm, wantMeta) {
@@ -696,7 +842,9 @@ func (b *bootRun) verify(stage string, unchanged bool) error {
 		return fmt.Errorf("%s: LoadStore(%d) gives %v (%v, %v), want %v", stage, wstore.GetId(), &ls, ok, err, wstore)
 	}
 	var lr metapb.Region
-	if ok, err := st.LoadRegion(wregion.GetId(), &lr); err != nil || !ok || !protoEq(&lr, wregion) {
+	if ok, err := st.LoadRegion(wregion.GetId(), &lr); err == nil && !ok && b.degraded {
+		// see degraded
+	} else if err != nil || !ok || !protoEq(&lr, wregion) {
 		return fmt.Errorf("%s: LoadRegion(%d) gives %v (%v, %v), want %v", stage, wregion.GetId(), &lr, ok, err, wregion)
 	}
 	var loadedStores []*metapb.Store
@@ -713,7 +861,9 @@ func (b *bootRun) verify(stage string, unchanged bool) error {
 	}); err != nil {
 		return errInconclusive
 	}
-	if len(loadedRegions) != 1 || !protoEq(loadedRegions[0], wregion) {
+	if b.degraded && len(loadedRegions) == 0 {
+		// see degraded
+	} else if len(loadedRegions) != 1 || !protoEq(loadedRegions[0], wregion) {
 		return fmt.Errorf("%s: LoadRegions gives %v, want only the winner's %v", stage, loadedRegions, wregion)
 	}
 	// --- served
@@ -729,7 +879,9 @@ func (b *bootRun) verify(stage string, unchanged bool) error {
 	if ss := rc.GetMetaStores(); len(ss) != 1 || !protoEq(ss[0], wstore) {
 		return fmt.Errorf("%s: served stores are %v, want only the winner's %v", stage, ss, wstore)
 	}
-	if rs := rc.GetMetaRegions(); len(rs) != 1 || !protoEq(rs[0], wregion) {
+	if rs := rc.GetMetaRegions(); b.degraded && len(rs) == 0 {
+		// see degraded
+	} else if len(rs) != 1 || !protoEq(rs[0], wregion) {
 		return fmt.Errorf("%s: served regions are %v, want only the winner's %v", stage, rs, wregion)
 	}
 	// --- nothing changed since the previous look
@@ -773,6 +925,113 @@ func (b *bootRun) sequential(in *inst, stage string) error {
 	return b.verify(stage+" / after "+in.name, had != nil)
 }
 
+// faultPhase: see Fault. ORACLE: a Bootstrap call that returned an error left the cluster root
+// either exactly as it was (never bootstrapped; a later valid request then succeeds) or completely
+// bootstrapped by this very request (all four records, one revision; after the next leader term the
+// cluster is served, IsBootstrapped is true and every later Bootstrap is refused) — never a subset.
+func (b *bootRun) faultPhase(c BootCase, info *vkit.Info, mk func(Req) *inst, install func()) error {
+	f := b.f
+	spec := Req{Kind: "ok", Labels: c.Fault.Labels}
+	// 1. fault-free run: count the etcd requests of the call
+	probe := mk(spec)
+	plan := &faultPlan{goid: curGoid()}
+	f.plan.Store(plan)
+	err := b.sequential(probe, "fault-free run")
+	f.plan.Store((*faultPlan)(nil))
+	if err != nil {
+		return err
+	}
+	k := plan.count
+	if k == 0 {
+		return fmt.Errorf("fault-free run: a successful Bootstrap issued no etcd request at all")
+	}
+	info.Class(fmt.Sprintf("etcd-requests-per-bootstrap-%d", k))
+	// 2. back to the never-bootstrapped state
+	if err := f.reset(); err != nil {
+		fmt.Printf("c20: reset failed (inconclusive, server will be restarted): %v\n", err)
+		return errInconclusive
+	}
+	install()
+	b.winner, b.lastVal, b.lastRev = nil, nil, nil
+	b.mu.Lock()
+	b.commits, b.txnKeys = nil, nil
+	b.mu.Unlock()
+	if err := b.verify("after the reset before the faulted request", false); err != nil {
+		return err
+	}
+	// 3. the same shape of request with a fault on its n-th etcd request
+	in := mk(spec)
+	n := 1 + c.Fault.N%k
+	plan = &faultPlan{goid: curGoid(), failAt: n, kind: c.Fault.Kind}
+	f.plan.Store(plan)
+	o := callBootstrap(b.svr, in)
+	f.plan.Store((*faultPlan)(nil))
+	stage := fmt.Sprintf("faulted request (%s on etcd request %d of %d: %q; outcome %v)", c.Fault.Kind, n, k, plan.hit, o)
+	info.Class("fault-" + c.Fault.Kind)
+	if plan.hit == "" {
+		info.Class("fault-not-reached")
+	} else if strings.HasPrefix(plan.hit, "txn bootstrap") {
+		info.Class("fault-on-guarded-txn-" + c.Fault.Kind)
+	} else if strings.HasPrefix(plan.hit, "txn") {
+		info.Class("fault-on-later-write")
+	} else {
+		info.Class("fault-on-later-read")
+	}
+	if o.panic != "" {
+		return fmt.Errorf("%s: the request panicked", stage)
+	}
+	if o.ok {
+		// the fault was swallowed or not reached: an ordinary success
+		info.Class("fault-outcome-success")
+		b.winner = in
+		return b.verify(stage, false)
+	}
+	if !strings.Contains(o.err, errInjectedEtcd.Error()) {
+		if envError(o.err) || strings.Contains(o.err, "not leader") {
+			return errInconclusive
+		}
+		return fmt.Errorf("%s: a valid request on a never-bootstrapped cluster failed, and not with the injected failure", stage)
+	}
+	vals, revs, err := f.snapshot()
+	if err != nil {
+		return errInconclusive
+	}
+	if len(vals) == 0 {
+		// nothing happened: the state is byte-identical to the never-bootstrapped one
+		info.Class("fault-outcome-error-nothing-stored")
+		return b.verify(stage, false)
+	}
+	// something is stored: it must be everything, from this request, in one revision
+	storeKey := path.Join(b.root, "s", fmt.Sprintf("%020d", in.req.GetStore().GetId()))
+	regionKey := path.Join(b.root, "r", fmt.Sprintf("%020d", in.req.GetRegion().GetId()))
+	timeKey := path.Join(b.root, "status", "raft_bootstrap_time")
+	for _, key := range []string{b.root, timeKey, storeKey, regionKey} {
+		if _, ok := vals[key]; !ok {
+			return fmt.Errorf("%s: the request returned an error but left a PART of the bootstrap record behind: %s is missing, stored keys (create/mod revision): %v", stage, key, describeRevs(revs))
+		}
+	}
+	info.Class("fault-outcome-error-complete-record")
+	b.winner, b.degraded = in, true
+	// the cluster is bootstrapped for good; it is served from the next leader term on
+	b.svr.GetMember().ResetLeader()
+	deadline := time.Now().Add(40 * time.Second)
+	for !(b.svr.GetMember().IsLeader() && b.svr.GetRaftCluster() != nil) {
+		if time.Now().After(deadline) {
+			return errInconclusive
+		}
+		time.Sleep(2 * time.Millisecond)
+	}
+	return b.verify(stage+", after the next leader term", false)
+}
+
+func describeRevs(revs map[string]string) []string {
+	var out []string
+	for _, k := range sortedKeys(revs) {
+		out = append(out, k+"@"+revs[k])
+	}
+	return out
+}
+
 func runBoot(c BootCase) (vkit.Info, error) {
 	var info vkit.Info
 	f, err := getLive()
@@ -810,34 +1069,49 @@ func runBootOn(f *liveFix, c BootCase) (vkit.Info, error) {
 	}
 	var sc atomic.Value // *gate.Sched while a gated race is running
 	parkedCnt := int32(0)
-	f.kvw.set(&txnHooks{
-		before: func(ti *txnInfo) {
-			if _, isBoot := ti.puts[b.root]; !isBoot {
-				return
-			}
-			if s, _ := sc.Load().(*gate.Sched); s != nil {
-				atomic.AddInt32(&parkedCnt, 1)
-				s.Enter("bootstrap-txn", "")
-			}
-		},
-		after: func(ti *txnInfo) {
-			if _, isBoot := ti.puts[b.root]; !isBoot || !ti.succeeded {
-				return
-			}
-			var sk []string
-			for k := range ti.puts {
-				if strings.HasPrefix(k, b.root+"/s/") {
-					sk = append(sk, k)
+	install := func() {
+		f.kvw.set(&txnHooks{
+			before: func(ti *txnInfo) int {
+				_, isBoot := ti.puts[b.root]
+				if isBoot {
+					if s, _ := sc.Load().(*gate.Sched); s != nil {
+						atomic.AddInt32(&parkedCnt, 1)
+						s.Enter("bootstrap-txn", "")
+					}
 				}
-			}
-			b.mu.Lock()
-			b.commits = append(b.commits, strings.Join(sk, ","))
-			b.mu.Unlock()
-		},
-	})
+				p, _ := f.plan.Load().(*faultPlan)
+				if isBoot {
+					return p.next("txn bootstrap")
+				}
+				return p.next("txn " + ti.first)
+			},
+			after: func(ti *txnInfo) {
+				if _, isBoot := ti.puts[b.root]; !isBoot || !ti.succeeded {
+					return
+				}
+				var sk []string
+				for k := range ti.puts {
+					if strings.HasPrefix(k, b.root+"/s/") {
+						sk = append(sk, k)
+					}
+				}
+				b.mu.Lock()
+				b.commits = append(b.commits, strings.Join(sk, ","))
+				b.txnKeys = sortedKeys(ti.puts)
+				b.mu.Unlock()
+			},
+		})
+	}
+	install()
 
 	if err := b.verify("before any request", false); err != nil {
 		return info, err
+	}
+	// ---- one valid request with an injected etcd fault
+	if c.Fault != nil {
+		if err := b.faultPhase(c, &info, mk, install); err != nil {
+			return info, err
+		}
 	}
 	// ---- refused requests before the race
 	for _, r := range c.Pre {
@@ -909,6 +1183,10 @@ func runBootOn(f *liveFix, c BootCase) (vkit.Info, error) {
 			nAlready++
 		}
 	}
+	hadWinner := b.winner
+	if hadWinner != nil && len(succ) > 0 {
+		return info, fmt.Errorf("race: %s succeeded although the cluster was already bootstrapped by %s [outcomes: %s]", succ[0].name, hadWinner.name, describe(race, outs))
+	}
 	if len(succ) > 1 {
 		return info, fmt.Errorf("race: %d concurrent requests succeeded, exactly one may [outcomes: %s]", len(succ), describe(race, outs))
 	}
@@ -918,10 +1196,10 @@ func runBootOn(f *liveFix, c BootCase) (vkit.Info, error) {
 		}
 		b.winner = succ[0]
 	}
-	if nValid > 0 && len(succ) == 0 {
+	if hadWinner == nil && nValid > 0 && len(succ) == 0 {
 		return info, fmt.Errorf("race: %d well-formed requests with the right cluster id raced on a fresh cluster and none succeeded [outcomes: %s]", nValid, describe(race, outs))
 	}
-	if err := b.verify("after the race ["+describe(race, outs)+"]", false); err != nil {
+	if err := b.verify("after the race ["+describe(race, outs)+"]", hadWinner != nil); err != nil {
 		return info, err
 	}
 	info.Class("mode-" + c.Mode)
@@ -929,7 +1207,8 @@ func runBootOn(f *liveFix, c BootCase) (vkit.Info, error) {
 	info.ClassIf(c.Mode == "gate" && atomic.LoadInt32(&parkedCnt) >= 2, "gate-2+-txns-parked-together")
 	info.ClassIf(nAlready > 0, "race-loser-already-bootstrapped")
 	info.ClassIf(b.winner == nil, "race-nobody-valid")
-	info.NonTrivial = nValid >= 2
+	info.ClassIf(hadWinner != nil, "race-on-bootstrapped-cluster")
+	info.NonTrivial = nValid >= 2 && hadWinner == nil
 
 	// ---- afterwards: fresh requests, repeats, leader change
 	for _, r := range c.Late {
